@@ -42,7 +42,7 @@ def setup_worker():
 def make_system(rng, ncomp=None, small_targets=True):
     ncomp = ncomp or rng.choice([1, 2, 2, 3, 3, 4])
     mols = []
-    solvents = ["CCO", "C1CCOC1", "CC(=O)C", "c1ccccc1", "CCCCCC", "CO", "CS"]
+    solvents = ["CCO", "C1CCOC1", "CC(=O)C", "c1ccccc1", "CCCCCC", "CO", "CS", "[H][H]"]  # incl. a component without any heavy atom
     rng.shuffle(solvents)
     for i in range(ncomp):
         if rng.random() < 0.35 and i > 0:
@@ -245,7 +245,13 @@ def run_case(case):
     cnt["molecules_yielded"] += len(seq)
     # stop rule on the library's own partial sums
     acc, stop_at = 0.0, None
+    from rdkit.Chem import Descriptors as _D
+
     for k, g in enumerate(seq):
+        w_indep = _D.HeavyAtomMolWt(g.mol)  # the heavy-atom mass of the molecule that was yielded, computed here
+        if abs(w_indep - g.weight) > 1e-6 * max(1.0, w_indep):
+            viol.append({"cls": "c13.weight-is-not-the-heavy-atom-mass", "msg": f"molecule {k} ({g.smiles}) reports weight {g.weight!r}, its heavy-atom mass is {w_indep!r}", "text": text})
+            break
         acc += g.weight
         if acc >= sysM and stop_at is None:
             stop_at = k
